@@ -155,11 +155,32 @@ class ClientProp(Prop):
         return list(MODEL_RUNS)
 
     def execute(self, scn):
-        from ..tcpdrive import run_scenario
-        return run_scenario(scn)
+        from ..tcpdrive import run_scenario, run_script
+        return run_script(scn) if "script" in scn else run_scenario(scn)
 
     def nontrivial(self, ev):
         return ev["ev"] in ("Write", "Ret", "Reply")
+
+    gen_info: dict | None = None
+
+    def tlc_scripts(self, ctx: Ctx, num: int) -> list[dict]:
+        """spec -> code: environment scripts (which operation, which reply class, released to whom, clock ticks) chosen by
+        TLC's simulator on Gen_Client; replayed against two real clients and judged like every other recording."""
+        from .. import tlcgen
+        behs, info = tlcgen.behaviours("Gen_Client", "Gen_Client.cfg", num, 60, ctx.seed % 100000)
+        self.gen_info = info
+        out = []
+        for n, b in enumerate(behs):
+            d1, k1 = rid(ctx.rng)
+            d2, k2 = rid(ctx.rng)
+            out.append({"zone": "UTC", "t0": t0_pre2038(ctx.rng), "seed": n,
+                        "inst": [{"api": 1, "dev": d1, "key": k1}, {"api": 2, "dev": d2, "key": k2}], "script": b})
+        return out
+
+    def extra_coverage(self, ctx):
+        if self.gen_info:
+            return {"behaviours_replayed_into_impl": self.gen_info["behaviours"], "behaviour_generator": self.gen_info}
+        return {}
 
 
 def one(rng, api: int, ops: list, zone="UTC", t0=None, order=None, inst2=None):
@@ -341,6 +362,7 @@ class C03(ClientProp):
             ops = [[self._any_op(rng, api) for _ in range(rng.randrange(1, 5))] for api in apis]
             order = [rng.randrange(2) for _ in range(40)]
             out.append({"zone": rng.choice(ZONES_ALL), "t0": t0_pre2038(rng), "inst": inst, "ops": ops, "order": order})
+        out += self.tlc_scripts(ctx, ctx.pick(300, 5000))
         return out
 
     assumptions = ClientProp.base_assumptions + [
@@ -466,6 +488,7 @@ class C09(ClientProp):
                     o = breeze_op(rng, a)
                     o["replies"][step] = bad
                     out.append(one(rng, 2, [o]))
+        out += self.tlc_scripts(ctx, ctx.pick(200, 4000))
         return out
 
     def owns(self, clause):
@@ -580,6 +603,7 @@ class C16(ClientProp):
                     batch.append(o)
             for ch in chunks(batch, 12):
                 out.append(one(rng, 2, ch))
+        out += self.tlc_scripts(ctx, ctx.pick(200, 4000))
         return out
 
     def owns(self, clause):
